@@ -3,7 +3,7 @@ import ast
 
 from .. import regexset
 from ..absint import Explorer, UNKNOWN
-from ..astutil import norm, const, NO, compare, tail, names
+from ..astutil import fmt_shape, norm, const, NO, compare, tail, names
 from ..index import AnalysisError, walk_own
 from .common import (site, key, calls_to, method_calls, nodes_with, guard_check, stores_to_name, regex_test, kills_of)
 
@@ -55,7 +55,9 @@ def r1(ctx):
         ctx.check("C15.R1", k in d and norm(d[k]) == w, key(f, "prov|" + k), site(f, text=k), "%s is `%s`, the gateway contract requires `%s`" % (k, norm(d[k]) if k in d else None, w), "%s <- %s" % (k, w))
     sp = d.get("SERVER_PROTOCOL")
     txt = norm(sp) if sp is not None else ""
-    ok_sp = sp is not None and "HTTP/" in txt and "%s.version" % REQ in txt and ("'.'.join" in txt or "%s.%s" in txt or "{}.{}" in txt)
+    sh = fmt_shape(sp) if sp is not None else None
+    ok_sp = sh is not None and sh[0] in ("HTTP/{}", "HTTP/{}.{}") and all("%s.version" % REQ in norm(v) for v in sh[1]) and \
+        (sh[0] == "HTTP/{}.{}" or "'.'.join" in norm(sh[1][0]))
     ctx.check("C15.R1", ok_sp, key(f, "prov|SERVER_PROTOCOL"), site(f, text="SERVER_PROTOCOL"), "SERVER_PROTOCOL is `%s`, required 'HTTP/' major '.' minor of req.version" % txt, "SERVER_PROTOCOL <- HTTP/major.minor")
     # request fields themselves
     fp = ctx.fn(repo.func(MSG + ".Request.parse_request_line"))
@@ -120,9 +122,9 @@ def r1(ctx):
     joins = [s for s in g.stmts(ast.Assign) if isinstance(s.ast.targets[0], ast.Name) and s.ast.targets[0].id == HV and any(a is loop.ast for a in f.module.ancestors(s.ast))]
     okk = False
     for s in joins:
-        v = s.ast.value
-        if isinstance(v, ast.BinOp) and isinstance(v.op, ast.Mod) and const(v.left, NO) == "%s,%s" and isinstance(v.right, ast.Tuple) and len(v.right.elts) == 2:
-            a, b = v.right.elts
+        sh = fmt_shape(s.ast.value)           # "%s,%s" % (..) / "{},{}".format(..) / f"{..},{..}" / a + "," + b
+        if sh and sh[0] == "{},{}" and all(c == "s" for c in sh[2]):
+            a, b = sh[1]
             okk = isinstance(a, ast.Subscript) and tail(a.value) == ENV and isinstance(b, ast.Name) and b.id == HV
     ctx.check("C15.R1", okk, key(f, "repeat-join"), site(f), "repeated header fields are not joined as `earlier,later`", "'%s,%s' % (environ[key], value)")
     # PATH_INFO
